@@ -383,6 +383,39 @@ def rule_G_ZERO(ctx, repo):
                      'treated as "ignore nothing", so calls that differ only in the first argument are evaluated separately' % (qual, name), '%s:%d' % (mm.rel, h.lineno))
 
 
+def rule_G_WRAPBARE(ctx, repo):
+    """G-FORMS (which specifications are a single entry): a bare name (str) or a bare index (an integer) is wrapped into a one-element list; everything else -
+    tuple, list, set, frozenset, dict keys - is a collection of entries and is walked.  The test that decides is positive on the scalar types.  A negative
+    test on a container class (`not isinstance(ignored, Sequence)`) misfiles the collections that are not instances of it: a set of names becomes one entry
+    that is neither a name nor an index, and nothing is ignored any more."""
+    m = repo.mod('_inspect')
+    n = 0
+    for fname, fi in sorted(m.functions.items()):
+        fn = fi.node
+        for x in ast.walk(fn):
+            # if <test>: spec = [spec]   /   spec = [spec] if <test> else spec
+            tests = []
+            if isinstance(x, ast.If):
+                for st in x.body:
+                    if isinstance(st, ast.Assign) and len(st.targets) == 1 and isinstance(st.targets[0], ast.Name) and isinstance(st.value, (ast.List, ast.Tuple)) \
+                            and len(st.value.elts) == 1 and isinstance(st.value.elts[0], ast.Name) and st.value.elts[0].id == st.targets[0].id:
+                        tests.append((x.test, st.targets[0].id, x.lineno))
+            elif isinstance(x, ast.IfExp) and isinstance(x.body, (ast.List, ast.Tuple)) and len(x.body.elts) == 1 and isinstance(x.body.elts[0], ast.Name):
+                tests.append((x.test, x.body.elts[0].id, x.lineno))
+            for t, name, ln in tests:
+                n += 1
+                neg = [y for y in ast.walk(t) if isinstance(y, ast.UnaryOp) and isinstance(y.op, ast.Not) and isinstance(y.operand, ast.Call)
+                       and isinstance(y.operand.func, ast.Name) and y.operand.func.id in ('isinstance', 'isiterable', 'hasattr') and y.operand.args
+                       and isinstance(y.operand.args[0], ast.Name) and y.operand.args[0].id == name]
+                ctx.ob('G-FORMS', '%s: a specification is wrapped as a single entry by a positive test on the scalar types' % fname, not neg)
+                for y in neg:
+                    ctx.fail('G-FORMS', fi.qual, 'single entry decided by `%s`' % unparse(y)[:50],
+                             '%s wraps `%s` into a one-element list whenever `%s`: collections that do not satisfy the negated test (a set or frozenset of names, dict keys, '
+                             'a generator) are taken for ONE entry, which is neither a name nor an index - nothing they list is ignored, so the ignored arguments enter the '
+                             'key and the function is evaluated again for every value of them' % (fname, name, unparse(y)[:60]), '%s:%d' % (m.rel, ln))
+    ctx.ob('G-FORMS', 'single-entry wrapping sites examined', True, n=max(n, 1))
+
+
 CARRIERS = {'_inspect': ('_keygen', 'rounded_args', 'func', 'key'), 'keymaps': ('__call__', 'encode', 'encrypt'),
             'rounding': ('deep_round', 'simple_round', 'shallow_round', 'func', 'rounded_args'),
             '_cache': ('wrapper', 'key', 'lookup', 'rounded_args'), 'safe': ('wrapper', 'key', 'lookup', 'rounded_args')}
@@ -1378,6 +1411,23 @@ def rule_V_CALLFALLBACK(ctx, repo):
                          'itself be a partial: one that carries attributes is not flattened).  A partial has a __call__ and no __name__, and partial.__call__ is '
                          '(self, *args, **kwargs): every argument list is then accepted and the names values are filed under are lost' % (fname, obj, obj, obj, obj),
                          '%s:%d' % (m.rel, x.lineno))
+    # ... and it is there: inspect.getfullargspec(instance) reports the parameters of type(instance).__call__ *including* self, which nothing strips for an
+    # object that is not a bound method - a positional argument is then filed under `self`, the keyword spelling under its own name (signature() is where
+    # the names come from; validate() follows it)
+    for fname in ('signature',):
+        fi = m.functions[fname]
+        reach = [fi.node] + [m.functions[c.func.id].node for c in ast.walk(fi.node) if isinstance(c, ast.Call) and isinstance(c.func, ast.Name) and c.func.id in m.functions
+                             and c.func.id not in ('signature', 'validate')]
+        has = any(isinstance(y, ast.Attribute) and y.attr == '__call__' and isinstance(y.ctx, ast.Load) and not isinstance(y.value, ast.Constant) for r_ in reach for y in ast.walk(r_)
+                  if not (isinstance(y, ast.Attribute) and isinstance(y.value, ast.Name) and y.value.id in ('partial', 'functools')))
+        has = has and any(isinstance(y, ast.Assign) and isinstance(y.value, ast.Attribute) and y.value.attr == '__call__' for r_ in reach for y in ast.walk(r_)) \
+            or any(isinstance(y, ast.Return) and isinstance(y.value, ast.Attribute) and y.value.attr == '__call__' for r_ in reach for y in ast.walk(r_))
+        ctx.ob('V-TARGET', '%s inspects a callable instance through its bound __call__' % fname, has)
+        if not has:
+            ctx.fail('V-TARGET', fi.qual, 'callable instances inspected as they are',
+                     '%s no longer replaces a callable instance by its bound `__call__` before asking for the argument spec: getfullargspec(instance) lists `self` '
+                     'first and nothing removes it, so a positional argument of inst(1) is filed under `self` while inst(x=1) is filed under `x` - the two spellings get '
+                     'different keys (klepto.safe recomputes silently, the plain caches raise)' % fname, '%s:%d' % (m.rel, fi.node.lineno))
     if n < 2:
         ctx.note('V-TRYRESET (callable-instance fallback): %d `func = func.__call__` replacements found in signature / validate (two on the validated tree)' % n)
 
